@@ -17,7 +17,7 @@ import concurrent.futures as cf
 
 import rustlex
 from common import VERIF, REPO, Scratch, run, sha256_text
-from extract import Extractor, LostAnchor, parse_splices
+from extract import Extractor, LostAnchor
 
 VERUS_DIR = os.path.join(VERIF, "contracts", "verus")
 VERUS_VERSION = "verus 0.2026.09.13 / z3 (bundled)"
@@ -102,7 +102,7 @@ def run_unit(unit_name, want_canary=True):
     unit_dir = os.path.join(VERUS_DIR, unit_name)
     res = {"unit": unit_name, "backend": VERUS_VERSION, "status": "undecided", "reason": "",
            "functions": [], "obligations": [], "failures": [], "extraction_log": [],
-           "assumptions_in_text": [], "verified": 0, "errors": 0, "wall_s": 0.0, "smt_s": 0.0,
+           "assumptions_in_text": [], "imported_contracts": [], "verified": 0, "errors": 0, "wall_s": 0.0, "smt_s": 0.0,
            "cmd": "", "canary": None}
     t0 = time.time()
     with Scratch(unit_name) as sc:
@@ -121,21 +121,18 @@ def run_unit(unit_name, want_canary=True):
         open(gen, "w").write(text)
         res["functions"] = ex.functions
         res["extraction_log"] = ex.log
+        res["imported_contracts"] = ex.imports
         res["assumptions_in_text"] = scan_cheats(text)
         res["generated_sha256"] = sha256_text(text)[:16]
         res["generated_lines"] = text.count("\n") + 1
-        # canary: same file with a false postcondition appended to the canary function(s)
-        canary_path = os.path.join(unit_dir, "canary.vs")
+        # canary: same extraction with the `#@canary` clauses (deliberately false) switched on
         jobs = {}
+        has_canary = "#@canary" in open(os.path.join(unit_dir, "splices.vs")).read()
         with cf.ThreadPoolExecutor(max_workers=2) as pool:
             jobs["main"] = pool.submit(_verus, gen)
-            if want_canary and os.path.exists(canary_path):
+            if want_canary and has_canary:
                 try:
-                    ex2 = Extractor(unit_dir, repo=sc.repo)
-                    extra = parse_splices(open(canary_path).read())
-                    for k, v in extra.items():
-                        ex2.splices.setdefault(k, [])
-                        ex2.splices[k] = ex2.splices[k] + v
+                    ex2 = Extractor(unit_dir, repo=sc.repo, canary=True)
                     ctext = ex2.build()
                     cgen = os.path.join(sc.path, unit_name + "_canary.rs")
                     open(cgen, "w").write(ctext)
@@ -199,8 +196,16 @@ def run_unit(unit_name, want_canary=True):
             if cdoc is None:
                 res["canary"] = {"status": "no result"}
             else:
-                cerr = cdoc.get("verification-results", {}).get("errors", 0)
-                res["canary"] = {"status": "fails as required" if cerr > 0 else "PASSED (vacuous!)", "errors": cerr}
+                cvr = cdoc.get("verification-results", {})
+                cerr, cver = cvr.get("errors", 0), cvr.get("verified", 0)
+                chard = [d for d in cdiags if d.get("level") == "error"
+                         and not any(x in d.get("message", "").lower() for x in SEMANTIC)
+                         and not d.get("message", "").startswith("aborting")]
+                if chard or (cerr == 0 and cver == 0):
+                    res["canary"] = {"status": "canary file rejected by verus: %s" % (chard[0]["message"][:120] if chard else "no result")}
+                else:
+                    res["canary"] = {"status": "fails as required" if cerr > 0 else "PASSED (vacuous!)",
+                                     "errors": cerr, "verified": cver}
         if hard_errors:
             res["reason"] = "verus rejected the generated file (unsupported construct / type error): " + \
                             "; ".join("%s @gen:%s" % e for e in hard_errors[:3])
@@ -213,7 +218,9 @@ def run_unit(unit_name, want_canary=True):
             res["reason"] = "verus reports errors without diagnostics"
         elif res["verified"] == 0:
             res["reason"] = "vacuity guard: zero obligations verified"
-        elif res["canary"] and res["canary"]["status"] != "fails as required":
+        elif want_canary and (not res["canary"] or res["canary"]["status"] != "fails as required"):
+            res["reason"] = "vacuity guard: canary " + (res["canary"]["status"] if res["canary"] else "missing (no #@canary clause in splices.vs)")
+        elif False:
             res["reason"] = "vacuity guard: canary " + res["canary"]["status"]
         else:
             res["status"] = "ok"
@@ -228,13 +235,17 @@ def _locate(ex, text, line, spans):
     # which extract block?
     for lo, hi, selector, rel, src_lines in ex.srcmap:
         if lo <= line <= hi:
-            # which function inside? find nearest preceding `fn name` line
+            keys = [f["key"] for f in ex.functions if f["key"] == selector or f["key"].startswith(selector + " > fn ")]
             lines = text.split("\n")
             for n in range(line, lo - 1, -1):
                 m = re.match(r"\s*(pub\s+)?(unsafe\s+)?fn\s+(\w+)", lines[n - 1])
                 if m:
-                    return "%s > fn %s" % (selector, m.group(3)) if not selector.startswith("fn ") else selector, \
-                        "%s:%s" % (rel, src_lines)
+                    cand = "%s > fn %s" % (selector, m.group(3)) if not selector.startswith("fn ") else selector
+                    if cand in keys:
+                        return cand, "%s:%s" % (rel, src_lines)
+                    break
+            if len(keys) == 1:        # e.g. a D5 copy whose name was changed
+                return keys[0], "%s:%s" % (rel, src_lines)
             return selector, "%s:%s" % (rel, src_lines)
     lines = text.split("\n")
     for n in range(line, 0, -1):
